@@ -35,6 +35,7 @@ static int hit(const char *what)
     return 0;
 }
 static unsigned long virt_ns;          /* virtual clock for sleeps */
+static unsigned long sleep_left_ns;    /* if non-zero: an interrupted sleep reports exactly this much time as remaining (interruption close to the end) */
 
 int __real_clock_nanosleep(clockid_t, int, const struct timespec *, struct timespec *);
 int __wrap_clock_nanosleep(clockid_t c, int flags, const struct timespec *req, struct timespec *rem)
@@ -44,6 +45,7 @@ int __wrap_clock_nanosleep(clockid_t c, int flags, const struct timespec *req, s
     if (!counting) return __real_clock_nanosleep(c, flags, req, rem);
     if (hit("clock_nanosleep")) {          /* interrupted after a third of the time: code returned, errno untouched */
         unsigned long slept = ns / 3 + (ns > 2000000 ? 123457 : 0), left = ns - slept;     /* the remaining time is not a whole number of milliseconds */
+        if (sleep_left_ns && ns > sleep_left_ns) { left = sleep_left_ns; slept = ns - left; }
         virt_ns += slept;
         if (rem) { rem->tv_sec = (time_t)(left / 1000000000ul); rem->tv_nsec = (long)(left % 1000000000ul); }
         return EINTR;
@@ -57,7 +59,7 @@ int __wrap_nanosleep(const struct timespec *req, struct timespec *rem)
 {
     unsigned long ns = (unsigned long)req->tv_sec * 1000000000ul + (unsigned long)req->tv_nsec;
     if (!counting) return __real_nanosleep(req, rem);
-    if (hit("nanosleep")) { unsigned long slept = ns / 3 + (ns > 2000000 ? 123457 : 0), left = ns - slept; virt_ns += slept; if (rem) { rem->tv_sec = (time_t)(left / 1000000000ul); rem->tv_nsec = (long)(left % 1000000000ul); } errno = EINTR; return -1; }
+    if (hit("nanosleep")) { unsigned long slept = ns / 3 + (ns > 2000000 ? 123457 : 0), left = ns - slept; if (sleep_left_ns && ns > sleep_left_ns) { left = sleep_left_ns; slept = ns - left; } virt_ns += slept; if (rem) { rem->tv_sec = (time_t)(left / 1000000000ul); rem->tv_nsec = (long)(left % 1000000000ul); } errno = EINTR; return -1; }
     virt_ns += ns;
     return 0;
 }
@@ -95,6 +97,12 @@ static int err_is_eintr(PError *e) { return e && p_error_get_native_code(e) == E
 static void sc_sleep(char *out)
 {
     size_t o = 0; unsigned long v0 = virt_ns; pint rc = p_uthread_sleep(30);
+    OUT("sleep rc=%d elapsed>=30ms:%d", rc, virt_ns - v0 >= 30000000ul);
+}
+static void sc_sleep_late(char *out)      /* the interruption arrives 0.4 ms before the end of the sleep */
+{
+    size_t o = 0; unsigned long v0 = virt_ns; pint rc;
+    sleep_left_ns = 400000; rc = p_uthread_sleep(30); sleep_left_ns = 0;
     OUT("sleep rc=%d elapsed>=30ms:%d", rc, virt_ns - v0 >= 30000000ul);
 }
 static void sc_sem_avail(char *out)
@@ -187,6 +195,10 @@ static void sc_udp(char *out)
     p_socket_set_timeout(u, 3000);
     if (!p_socket_bind(u, lo, TRUE, NULL)) { OUT("setup-failed"); goto done; }
     ua = p_socket_get_local_address(u, NULL);
+    /* nothing has arrived yet: a wait for input with a time-out must report the time-out, whatever interrupts it */
+    p_socket_set_timeout(u, 40);
+    OUT("idle-wait=%d err=%d ", p_socket_io_condition_wait(u, P_SOCKET_IO_CONDITION_POLLIN, &e), e ? p_error_get_code(e) : 0); if (err_is_eintr(e)) OUT("EINTR-ERROR "); if (e) { p_error_free(e); e = NULL; }
+    p_socket_set_timeout(u, 3000);
     n = p_socket_send_to(u, ua, "dgram", 5, &e); OUT("send_to=%ld ", (long)n);
     memset(buf, 0, sizeof buf); n = p_socket_receive_from(u, &from, buf, sizeof buf - 1, &e); OUT("receive_from=%ld[%s] from-port-ok=%d", (long)n, buf, from && ua && p_socket_address_get_port(from) == p_socket_address_get_port(ua));
     if (err_is_eintr(e)) OUT(" EINTR-ERROR");
@@ -195,7 +207,7 @@ done:
 }
 
 static const struct { const char *name; void (*fn)(char *); } SC[] = {
-    {"sleep", sc_sleep}, {"sem-available", sc_sem_avail}, {"sem-unit-arrives-later", sc_sem_later}, {"shm-lock", sc_shm}, {"ipc-open-create", sc_ipc_open}, {"tcp", sc_tcp}, {"udp", sc_udp},
+    {"sleep", sc_sleep}, {"sleep-interrupted-near-the-end", sc_sleep_late}, {"sem-available", sc_sem_avail}, {"sem-unit-arrives-later", sc_sem_later}, {"shm-lock", sc_shm}, {"ipc-open-create", sc_ipc_open}, {"tcp", sc_tcp}, {"udp", sc_udp},
 };
 #define NSC ((int)(sizeof SC / sizeof SC[0]))
 
